@@ -49,6 +49,10 @@ pub struct ConnCase {
     /// candidates) is what starts the next attempt.
     #[serde(default)]
     pub hanging_first: bool,
+    /// per-attempt connect timeout in ms; 0 = none; absent = 5 s. With a hanging candidate and
+    /// nothing else that can succeed, only the overall deadline may end the operation.
+    #[serde(default)]
+    pub connect_timeout_ms: Option<u64>,
 }
 
 pub struct RealConnectSim {
@@ -69,7 +73,7 @@ fn enumerated() -> Vec<ConnCase> {
                             if setup_fails_first && n > 3 {
                                 continue;
                             }
-                            v.push(ConnCase { seed: 3, listening: (0..n).map(|i| mask & (1 << i) != 0).collect(), concurrency, timeout_ms, via, setup_fails_first, hanging_first: false });
+                            v.push(ConnCase { seed: 3, listening: (0..n).map(|i| mask & (1 << i) != 0).collect(), concurrency, timeout_ms, via, setup_fails_first, hanging_first: false, connect_timeout_ms: None });
                         }
                     }
                 }
@@ -78,7 +82,18 @@ fn enumerated() -> Vec<ConnCase> {
     }
     for listening in [vec![true], vec![false, true], vec![true, true]] {
         for via in [Via::Addrs, Via::Call] {
-            v.push(ConnCase { seed: 3, listening: listening.clone(), concurrency: Some(1), timeout_ms: Some(4000), via, setup_fails_first: false, hanging_first: true });
+            v.push(ConnCase { seed: 3, listening: listening.clone(), concurrency: Some(1), timeout_ms: Some(4000), via, setup_fails_first: false, hanging_first: true, connect_timeout_ms: None });
+        }
+    }
+    // the overall deadline: nothing but a hanging candidate (alone, or followed by candidates that
+    // refuse), a deadline of 1 s and a per-attempt timeout that is longer or absent
+    for listening in [vec![], vec![false], vec![false, false]] {
+        for via in [Via::Addrs, Via::Call] {
+            for concurrency in [None, Some(1), Some(2)] {
+                for connect_timeout_ms in [Some(5000u64), Some(0)] {
+                    v.push(ConnCase { seed: 3, listening: listening.clone(), concurrency, timeout_ms: Some(1000), via, setup_fails_first: false, hanging_first: true, connect_timeout_ms });
+                }
+            }
         }
     }
     v
@@ -184,6 +199,7 @@ impl Scenario for RealConnectSim {
             via: *r.pick(&[Via::Addrs, Via::Call]),
             setup_fails_first: r.chance(1, 4),
             hanging_first: false,
+            connect_timeout_ms: None,
         }
     }
 
@@ -230,7 +246,11 @@ impl Scenario for RealConnectSim {
                 let mut cfg = TcpTransportConfig::default();
                 cfg.happy_eyeballs_concurrency = case.concurrency;
                 cfg.happy_eyeballs_timeout = case.timeout_ms.map(Duration::from_millis);
-                cfg.connect_timeout = Some(Duration::from_secs(5));
+                cfg.connect_timeout = match case.connect_timeout_ms {
+                    None => Some(Duration::from_secs(5)),
+                    Some(0) => None,
+                    Some(ms) => Some(Duration::from_millis(ms)),
+                };
                 if case.setup_fails_first {
                     cfg.local_address_ipv6 = Some("2001:db8::1".parse().unwrap());
                 }
@@ -299,6 +319,7 @@ impl Scenario for RealConnectSim {
         sig.push(case.timeout_ms.is_some() as u64);
         sig.push(case.via as u64);
         sig.push(case.setup_fails_first as u64);
+        sig.push(case.hanging_first as u64 * 4 + case.connect_timeout_ms.map(|c| 1 + (c == 0) as u64).unwrap_or(0));
         out.abstract_sig = sig.0;
         if case.setup_fails_first {
             out.count("fault.candidate_socket_setup_fails");
@@ -337,6 +358,8 @@ impl Scenario for RealConnectSim {
                 log.push(2);
                 if first_listening.is_some() {
                     v10("error_although_candidate_listens", format!("candidates {:?}: {}", case.listening, e));
+                } else if case.hanging_first {
+                    // judged below (the overall deadline)
                 } else if n == 0 {
                     // "fails immediately": not by waiting for the overall deadline (30 s when set)
                     if started.elapsed() > Duration::from_secs(5) {
@@ -359,6 +382,23 @@ impl Scenario for RealConnectSim {
                 }
             }
             Ok(None) => {}
+        }
+        // ---- C11 (and C10's "or after the overall deadline has expired"): with a hanging candidate and
+        // nothing that can succeed, the operation ends at the overall deadline, not at the
+        // per-attempt timeout and not never. Real time: 2 s of slack on a 1 s deadline.
+        if case.hanging_first && hangs && first_listening.is_none() && !hanging_won {
+            if let Some(t) = case.timeout_ms {
+                let el = started.elapsed();
+                out.count("probe.deadline_with_only_a_hanging_candidate");
+                if matches!(&res, Err(e) if e == "HANG") || el > Duration::from_millis(t + 2000) {
+                    out.violations.push(Violation::new(
+                        "C11",
+                        "deadline_overrun",
+                        json!({"via": format!("{:?}", case.via), "per_attempt_timeout": case.connect_timeout_ms != Some(0)}),
+                        format!("one hanging candidate followed by {} refusing ones, overall deadline {} ms, per-attempt timeout {:?}: the operation ended after {:?} with {:?}", n, t, case.connect_timeout_ms, el, res.as_ref().err()),
+                    ));
+                }
+            }
         }
         log.push(winner.map(|w| w as u64 + 1).unwrap_or(0));
         for a in &attempted {
